@@ -198,6 +198,9 @@ func CheckC06(c *Case, cov *Cov) []*Violation {
 	if c.Mode == "prochist" {
 		return checkProcHist(c, cov)
 	}
+	if c.Mode == "slowsrc" {
+		return checkSlowSrc(c, cov)
+	}
 	var ex C06Extra
 	if err := json.Unmarshal(c.Extra, &ex); err != nil {
 		panic(err)
@@ -385,10 +388,10 @@ func init() {
 		Stubs:           []string{"map iteration order (verifIter)", "directory tree built per run"},
 		ShrinkBudget:    600,
 		Post:            postC06,
-		Posts:           []func(seed uint64, tier string, cov *Cov) ([]*Violation, map[string]any, error){postC06Hist},
+		Posts:           []func(seed uint64, tier string, cov *Cov) ([]*Violation, map[string]any, error){postC06Hist, postC06Slow},
 		IsolationClause: "C06.process",
 		NondetClause:    "C06.scheduling",
-		MustReach:       []string{"calls-augmented-from-sources", "command-loop-history", "history:other-input-between", "pp-executions"},
+		MustReach:       []string{"calls-augmented-from-sources", "slow-source-file:read-by-the-library", "command-loop-history", "history:other-input-between", "pp-executions"},
 	})
 }
 
